@@ -156,11 +156,19 @@ pub fn write_evidence(p: &Progress) {
 /// Called from the panic hook for non-unwinding panics (process is about to abort).
 pub fn abort_report(msg: &str) {
     let cur = crate::world::CURRENT_EXEC.with(|c| c.borrow().clone());
-    let mut guard = match PROGRESS.try_lock() {
-        Ok(g) => g,
-        Err(_) => {
-            eprintln!("abort while reporting: {}", msg);
-            std::process::exit(3);
+    // several workers may hit the same abort at once: the first one reports and exits the process
+    let mut tries = 0;
+    let mut guard = loop {
+        match PROGRESS.try_lock() {
+            Ok(g) => break g,
+            Err(_) => {
+                tries += 1;
+                if tries > 200 {
+                    eprintln!("abort while reporting: {}", msg);
+                    std::process::exit(3);
+                }
+                std::thread::sleep(std::time::Duration::from_millis(50));
+            }
         }
     };
     if let Some(p) = guard.as_mut() {
